@@ -92,10 +92,19 @@ class Harness:
 
     # ------------------------------------------------------------------ obligations
     def prove(self, name, hyps, goal, timeout=None, replay=None, neg_margin=None, key=None, group=None,
-              tfvar=None, strategies=('default', 'old', 'nlsat'), depends=()):
+              tfvar=None, strategies=('default', 'old', 'nlsat'), depends=(), linear=False):
         """depends: lemma obligations whose statements were added to hyps; this obligation only counts as discharged
         if every one of them was itself discharged in this run"""
         timeout = timeout or (15 if self.quick else 60)
+        if linear:
+            # decide on the linear abstraction (every non-linear subterm an opaque variable): unsat there is unsat here
+            from .terms import linear_abstract
+            table, cache = {}, {}
+            hyps = [linear_abstract(x, table, cache) for x in hyps]
+            goal = linear_abstract(goal, table, cache)
+            if neg_margin is not None:
+                neg_margin = linear_abstract(neg_margin, table, cache)
+            self._keep = getattr(self, '_keep', []) + [table]
         ob = Ob(name, hyps, goal, 'prove', timeout, replay, neg_margin, key, group, tfvar)
         ob.deps = list(depends)
         goal_s = z3.simplify(goal)
